@@ -42,7 +42,7 @@ TEXT = {
         'design_ref': 'DESIGN.md §4 C08',
     },
     'C16': {
-        'text': 'Partial. Contracts "Ok exactly on the documented domain, Err otherwise, never panic/overflow, and a returned instance is usable" are proved by Verus (unbounded) for Histogram::new, Prio2::new, check_num_aggregators and the length accessors of Histogram/SumVec/MultihotCountVec/Sum, and by Kani (full-domain scalars) for Prio3::new, role_try_from, random_size and the wrong-length / wrong-count guards of shard_with_random and verifier_shares_to_message. Two defects found this way were repaired (Histogram out-of-range bucket, Prio2::new overflow, u8 share counter).',
+        'text': 'Partial. Contracts "Ok exactly on the documented domain, Err otherwise, never panic/overflow, and a returned instance is usable" are proved by Verus (unbounded) for Histogram::new, Sum::new, SumVec::new, MultihotCountVec::new, L1BoundSum::new (any field modulus, F::Integer = u128 and u64), Prio2::new, check_num_aggregators and the length accessors of Histogram/SumVec/MultihotCountVec/Sum, and by Kani (full-domain scalars) for Prio3::new, role_try_from, random_size and the wrong-length / wrong-count guards of shard_with_random and verifier_shares_to_message. Defects found this way were repaired (Histogram out-of-range bucket, Prio2::new overflow, u8 share counter, L1BoundSum::new measurement_len+1 overflow).',
         'note': 'Not covered: DP constructors, Poplar1 operations (bitvec), FLP prove/query length guards. Known finding: chunk lengths near usize::MAX are accepted by Histogram/SumVec/MultihotCountVec::new although their length accessors then overflow.',
         'technique': 'constructor/accessor contracts on extracted real code (Verus) + guard contracts on real generic code over a nondeterministic Type (Kani)',
         'design_ref': 'DESIGN.md §4 C16',
@@ -60,9 +60,9 @@ TEXT = {
         'design_ref': 'DESIGN.md §4 C18',
     },
     'C02': {
-        'text': 'Partial: deterministic rejection guards. Kani proves on the real Prio3 aggregator code, for every Type meeting the Type contract, the checks the soundness argument relies on (share count and length, every proof decided, seed recomputed from all parts, full-seed comparison, no output share on mismatch).',
+        'text': 'Partial: deterministic rejection guards. Kani proves on the real Prio3 aggregator code, for every Type meeting the Type contract, the checks the soundness argument relies on (share count and length, every proof decided, seed recomputed from all parts, full-seed comparison, no output share on mismatch). Verus proves that the constructors of SumVec/MultihotCountVec/L1BoundSum provision ceil(encoded length / chunk_length) range-check gadget calls, i.e. no chunk of the encoded input (incl. the digits of a claimed norm or weight) escapes the bit check.',
         'note': 'The soundness error of the proof system is probabilistic and not decided; validity-circuit algebra is not covered.',
-        'technique': 'guard contracts on real generic code over a nondeterministic Type implementation (Kani)',
+        'technique': 'guard contracts on real generic code over a nondeterministic Type implementation (Kani) + constructor postconditions on extracted real code (Verus)',
         'design_ref': 'DESIGN.md §4 C02',
     },
     'C19': {
